@@ -24,7 +24,6 @@ inductive ImpErr
   | revoked            -- ErrMaybeChainRevoked
   | creditNotFound     -- txmgr.ErrUnexpectedCreditNotFound: the worker gives the import up
   | noWallet           -- keystore not found
-  | notRelevant        -- "tx is not relevant": the code dereferences a nil record here (panic)
   | other
   deriving DecidableEq, Repr, Inhabited
 
@@ -60,13 +59,16 @@ def fetchTxUntil (n : Node) (id : TxId) (height : Nat) : Option Tx :=
 
 /-- does `tx` (in a block at `height`) touch one of the script hashes?  This is what the node's
     script-hash index records for a transaction: every output script hash and the script hash of
-    every previous output it spends (blockchain.AddrIndexer.indexBlockAddrs). -/
+    every previous output it spends (blockchain.AddrIndexer.indexBlockAddrs).  The index does NOT parse
+    the script the way the wallet does: an output the wallet reads as unsupported (`Cls.raw`) but which
+    carries one of the script hashes (a binding template whose target has no address form) IS indexed;
+    a script without any script hash has an address outside every keystore (the drivers use "raw"). -/
 def touches (n : Node) (addrs : List Addr) (height : Nat) (tx : Tx) : Bool :=
-  tx.outs.any (fun o => o.cls != .raw && addrs.contains o.addr) ||
+  tx.outs.any (fun o => addrs.contains o.addr) ||
   (!tx.cb && tx.ins.any (fun i =>
     match fetchTxUntil n i.tx height with
     | some pt => match pt.outs[i.idx]? with
-      | some o => o.cls != .raw && addrs.contains o.addr
+      | some o => addrs.contains o.addr
       | none => false
     | none => false))
 
@@ -193,11 +195,13 @@ def plan (n : Node) (addrs : List Addr) (start stop : Nat) : List Item :=
     | some b => (relatedAt n addrs h).map (fun p => ⟨⟨h, b.id⟩, p.1, p.2⟩)
     | none => [])
 
-/-- apply one planned item (filter + insert) inside the batch transaction -/
+/-- apply one planned item (filter + insert) inside the batch transaction.  An indexed transaction that
+    `filterTxForImporting` finds irrelevant (`rec == nil`: every indexed output / previous output carries a
+    script the wallet does not support) is skipped (`continue`, fix D41). -/
 def applyItem (c : Ctx) (w : Wid) (acc : Store × AMap.T Wid Nat) (it : Item) :
     Except ImpErr (Store × AMap.T Wid Nat) := do
   match ← filterTxForImporting c.node w c.own it.tx it.blk.height with
-  | none => throw .notRelevant
+  | none => pure acc
   | some tr =>
     let tr := { tr with loc := (it.blk.hash, it.pos) }
     match addRelevantTxForImporting c.p c.own acc.1 acc.2 tr it.blk with
@@ -205,14 +209,24 @@ def applyItem (c : Ctx) (w : Wid) (acc : Store × AMap.T Wid Nat) (it : Item) :
     | .error .chainReorg => throw .continuable
     | .error (.ledger e) => throw (ofLedgerErr e)
 
-/-- which heights of the plan enter the volatile expired-mempool map -/
-def expiredUpdate (best : Nat) (items : List Item) (exp : AMap.T Nat (List TxId)) : AMap.T Nat (List TxId) :=
+/-- was the item recorded (`added = append(added, …)`), i.e. not skipped as irrelevant?  `filterTxForImporting`
+    reads the node and the keystore only, so this can be recomputed after the fold. -/
+def itemRelevant (c : Ctx) (w : Wid) (it : Item) : Bool :=
+  match filterTxForImporting c.node w c.own it.tx it.blk.height with
+  | .ok (some _) => true
+  | _ => false
+
+/-- which heights of the plan enter the volatile expired-mempool map: every indexed height not older than
+    MaxMemPoolExpire gets an entry (`heightAdded[height] = added`, possibly empty), holding the transactions
+    that were recorded (`rel`) -/
+def expiredUpdate (rel : Item → Bool) (best : Nat) (items : List Item) (exp : AMap.T Nat (List TxId)) :
+    AMap.T Nat (List TxId) :=
   items.foldl (fun m it =>
     let h := it.blk.height
     if best > Gen.Handler.maxMemPoolExpire && h ≤ best - Gen.Handler.maxMemPoolExpire then m
     else
       let old := (AMap.get m h).getD []
-      AMap.put m h (if old.contains it.tx.id then old else old ++ [it.tx.id])) exp
+      AMap.put m h (if !rel it || old.contains it.tx.id then old else old ++ [it.tx.id])) exp
 
 /-- what a batch reads before it scans: status, balance, cursor, the follower's tip, the range -/
 structure BatchHead where
@@ -259,7 +273,7 @@ def importStep (batch : Nat) (c : Ctx) (w : Wid) (s : Store) (v : Vol) : Except 
     match items.foldlM (applyItem c w) (s, [(w, hd.bal)]) with
     | .error e => .error e
     | .ok (s', bals) =>
-      .ok (finishBatch w hd s' bals, { v with expired := expiredUpdate hd.best items v.expired }, decide (hd.stop = hd.best))
+      .ok (finishBatch w hd s' bals, { v with expired := expiredUpdate (itemRelevant c w) hd.best items v.expired }, decide (hd.stop = hd.best))
 
 -- ------------------------------------------------------------------ wallet.go
 
